@@ -319,6 +319,11 @@ def check_c10(tier):
         e2 = dict(ex, state=real, expected=want, blame=["scan_no_cleanup_same_file"])
         if kind == "scan_first":
             V.violation(e2, "the notification arrived after the scan's visit, yet the index does not reflect the editor's content exactly once")
+        elif kind == "editor_first" and (real["usages"] != disk_only["usages"] or real["ubf"] != disk_only["ubf"]):
+            # the deviation is about DEFINITIONS only (analyzer.rs: the fresh path skips the definitions cleanup);
+            # Conc.tla's scan visit still clears the file's usages and their reverse index before re-recording them,
+            # so after the sequential order editor -> scan both must be exactly the on-disk text's
+            V.violation(e2, "after notification then scan visit the usage maps are not those of the scan's analysis (forward map and reverse index must both be replaced)")
         elif within_union(real):
             V.classify(["scan_no_cleanup_same_file"], e2, "after scan and editor notification the index does not reflect the editor's content exactly once")
         else:
